@@ -89,8 +89,12 @@ def one(ctx, impl, traces, tag, cfg):
         bad = impl.judge_full(cfg["calls"], r)
     if bad:
         ctx.fail("oracle/" + bad[0], "%s; scenario %r" % (bad[1], cfg), replay=dict(cfg=cfg, fires=r["fires"], waiting=r["waiting"]))
-    if r["errors"]:
-        ctx.fail("harness/recorder", "recorder inconsistency: %r on %r" % (r["errors"][:3], cfg), replay=dict(cfg=cfg), has_input=False)
+    drop = [e for e in r["errors"] if e.startswith("protocol violation")]
+    if drop:
+        ctx.fail("oracle/protocol-violation-not-dropped", "%s; scenario %r" % (drop[0], cfg), replay=dict(cfg=cfg))
+    if len(drop) < len(r["errors"]):
+        ctx.fail("harness/recorder", "recorder inconsistency: %r on %r" % ([e for e in r["errors"] if e not in drop][:3], cfg),
+                 replay=dict(cfg=cfg), has_input=False)
     # non-trivial: some request was pending when the connection ended
     pend = False
     for op, snap in r["trace"]:
@@ -166,8 +170,8 @@ def wire_sweep(ctx, impl, traces):
                 cutsA = list(range(tA + 1))
                 cutsB_all = list(range(tB + 1))
             else:
-                cutsA = offsets(ctx, tA, r["marksA"], ctx.n(60, 0))
-                cutsB_all = offsets(ctx, tB, r["marksB"], ctx.n(50, 0))
+                cutsA = offsets(ctx, tA, r["marksA"], ctx.n(100, 0))
+                cutsB_all = offsets(ctx, tB, r["marksB"], ctx.n(80, 0))
             # (1) cut the caller->callee direction everywhere, callee->caller at a few positions
             for cutA in cutsA:
                 for cutB in ([0, tB] if not thorough else [0, tB // 3, tB]):
@@ -213,7 +217,7 @@ def gen_ops(rng, n):
 
 
 def api_sequences(ctx, impl, traces):
-    n = ctx.n(400, 6000)
+    n = ctx.n(600, 6000)
     for i in range(n):
         ops = gen_ops(ctx.rng, ctx.rng.randint(3, 30))
         safe_point()
